@@ -249,9 +249,12 @@ def oracle_c04(tr):
     if not tr.ok:
         return None
     for op, res, b0, a0, b1, a1, now, prices in walk(tr):
-        if op[0] not in (2, 3):
+        if op[0] not in (2, 3, 34, 35):
             continue
         a = op[1]
+        if res == "OK" and op[0] in (34, 35) and a1[a]["slots"] and not (a1[a]["flags"] & 2):
+            return {"key": "risk-check-skipped-without-accounts",
+                    "what": f"{H.OPN[op[0]]} succeeded although the account still has active balances and is not in a flash loan"}
         if res == "OK":
             A, L = health(tr, a1[a], b1, prices, "init")
             if A - L < -tol(A, L):
